@@ -13,7 +13,8 @@ def jCfg (j : Json) : Except String EulerCfg := do
          failKeys := ← jList jRat (← field j "fail"),
          tol := ← match fieldD j "tol" .null with
            | .null => pure none
-           | v => do pure (some (← jRat v)) }
+           | v => do pure (some (← jRat v)),
+         raiseKeys := ← jList jRat (fieldD j "raise" (.arr #[])) }
 
 def jProto (j : Json) : Except String Protocol := jList (jPair jRat jRow) j
 
